@@ -61,9 +61,20 @@ Expected(NS, E, kind, gen) == TTerms(NS, gen) \cup ITerms(NS, E, kind)
 
 Count(P, t) == Cardinality({p \in P : TermOf(p) = t})
 
-PathBagOKOn(P, NS, E, kind, gen) ==
+\* the requirement as stated
+PathBagOKDef(P, NS, E, kind, gen) ==
   /\ \A t \in Expected(NS, E, kind, gen) : Count(P, t) = 1        \* each term exactly once
   /\ \A p \in P : TermOf(p) \in Expected(NS, E, kind, gen)         \* and nothing else
+
+\* the same, in the form TLC evaluates quickly: TermOf is a bijection from the paths onto Expected
+\* (into + injective + equal cardinalities).  MPOAutomaton!FormsAgree checks the equivalence on every
+\* automaton of the small configurations.
+PathBagOKOn(P, NS, E, kind, gen) ==
+  LET ex == Expected(NS, E, kind, gen)
+      tm == {TermOf(p) : p \in P}
+  IN /\ tm \subseteq ex
+     /\ Cardinality(tm) = Cardinality(P)
+     /\ Cardinality(P) = Cardinality(ex)
 
 PathBagOK(F, NS, root, sink, E, kind, gen) == PathBagOKOn(Paths(F, NS, root, sink), NS, E, kind, gen)
 
